@@ -32,6 +32,12 @@ def _crash(mode, wq, wt, cuts_q=140, cuts_t=400):
     return f
 
 
+def _crash_chain(tier):
+    if tier == "quick":
+        return [{"engine": "crash", "args": {"mode": "chain", "workloads": 6, "chain": 6, "cuts": 50}}]
+    return [{"engine": "crash", "shards": 4, "args": {"mode": "chain", "workloads": 80, "chain": 10, "cuts": 120, "threads": 24}}]
+
+
 CRASH_ASSUMPTIONS = [
     "crash model: writes reach the device in issue order; a completed fsync makes everything issued before it durable; writes since the last completed fsync are lost independently and one may be torn at 512-byte sector granularity; file size is stable (block-device abstraction, not a model of a particular filesystem)",
     "device trace taken by hook H1 inside DiskIO (io_uring SQEs are observed at submission); the DiskIO write guard serialises writers so the trace order is the device order",
@@ -158,7 +164,7 @@ PLAN = {
             "assumptions": ["'bounded' is judged logically (pending-work accessor reaches zero, durable prefix equals the accepted state); wall-clock only fails a run after 10 s without drain AND 5 s without device activity; drain times are reported as a distribution"] + CRASH_ASSUMPTIONS[:2]},
     "C07": {"level": "exploration", "engines": LIN, "min_nontrivial": 500, "assumptions": CONC_ASSUMPTIONS},
     "C08": {"level": "exploration", "engines": REUSE, "min_nontrivial": 50, "assumptions": CONC_ASSUMPTIONS + ["one writer per key, so each key's writes form a sequence with recorded intervals; readers never modify"]},
-    "C02": {"level": "fault_enumeration", "engines": _crash("ack", 14, 240), "min_nontrivial": 200, "assumptions": CRASH_ASSUMPTIONS},
+    "C02": {"level": "fault_enumeration", "engines": _both(_crash("ack", 14, 240), _crash_chain), "min_nontrivial": 200, "assumptions": CRASH_ASSUMPTIONS},
     "C03": {"level": "fault_enumeration", "engines": _crash("all", 14, 240), "min_nontrivial": 200, "assumptions": CRASH_ASSUMPTIONS},
     "C04": {"level": "fault_enumeration", "engines": _crash("idem", 4, 60, cuts_q=50, cuts_t=120), "min_nontrivial": 50, "assumptions": CRASH_ASSUMPTIONS},
     "C01": {"level": "exploration", "engines": _model("all"), "min_nontrivial": 500, "assumptions": MODEL_ASSUMPTIONS},
